@@ -567,8 +567,16 @@ func unfolder(c *simkit.Choices, x *simkit.Ctx) *simkit.Violation {
 		if uv != 0 && c.N(5) == 0 && !similar {
 			te = &model.TreeEntry
 		}
+		if c.N(12) == 0 && !similar {
+			// a target type the unfolder must refuse (SetTarget error), now and
+			// every later time, without leaving anything behind
+			te = model.TypeByName([]string{"BadField", "HasBad", "[]BadField", "map[int]string"}[c.N(4)])
+		}
 		v := te.Gen(c)
 		evs := recordFold(v)
+		if !te.Supported {
+			evs = []simkit.Ev{{K: simkit.KObjStart, I: -1}, {K: simkit.KKey, S: "a"}, {K: simkit.KInt64, I: 1}, {K: simkit.KObjEnd}}
+		}
 		if evs == nil {
 			st.Probe("unfolder-value-not-foldable")
 			return nil
@@ -609,6 +617,7 @@ func unfolder(c *simkit.Choices, x *simkit.Ctx) *simkit.Violation {
 	var rerr, ferr error
 	var v *simkit.Violation
 	skip := false
+	refusedProbe := false
 	pi := simkit.Guard(func() {
 		u, err := gotype.NewUnfolder(nil, model.UnfolderOpts(uv)...)
 		if err != nil {
@@ -623,7 +632,19 @@ func unfolder(c *simkit.Choices, x *simkit.Ctx) *simkit.Violation {
 		for i, d := range docs {
 			ptr, _, val := d.te.NewTarget()
 			if err := u.SetTarget(ptr); err != nil {
-				skip = true
+				if d.te.Supported {
+					skip = true
+					return
+				}
+				st.Probe("unsupported-target-refused-by-reused-unfolder")
+				if i == nh {
+					rerr, refusedProbe = err, true
+					return
+				}
+				continue
+			} else if !d.te.Supported {
+				v = &simkit.Violation{Kind: "probe-differs", Site: "unfolder/SetTarget/" + d.te.Name,
+					Detail: fmt.Sprintf("document %d: the re-used unfolder accepted a target of type %s, which a new unfolder refuses", i+1, d.te.Name), Scenario: sc}
 				return
 			}
 			var err error
@@ -662,6 +683,9 @@ func unfolder(c *simkit.Choices, x *simkit.Ctx) *simkit.Violation {
 	}
 	if v != nil || skip {
 		return v
+	}
+	if refusedProbe {
+		return nil // refused, as a new unfolder does (the type is in the unsupported list)
 	}
 	if pi := simkit.Guard(func() {
 		d := docs[nh]
